@@ -232,6 +232,7 @@ func judgeImage(cfg core.Cfg, im image, queries []core.Call, qok []bool, allowed
 	}
 	var firstBad []core.Mismatch
 	matched := false
+	var matchedState *core.State
 	for ai, st := range allowed {
 		var bad []core.Mismatch
 		for _, m := range core.CheckObs(st, queries, obs) {
@@ -249,6 +250,7 @@ func judgeImage(cfg core.Cfg, im image, queries []core.Call, qok []bool, allowed
 		}
 		if len(bad) == 0 {
 			matched = true
+			matchedState = st
 			if ai == 1 {
 				bump(leaf, "recovered_to_inflight_commit")
 			}
@@ -272,6 +274,16 @@ func judgeImage(cfg core.Cfg, im image, queries []core.Call, qok []bool, allowed
 		sort.Strings(atoms)
 		add("recovered-state", atoms[0], atoms, det, im)
 		in.CloseOnly()
+		return
+	}
+	// the recovered database must be usable: a further committed write (a small record, then one
+	// large enough to force a rotation) is visible, leaves everything else unchanged and survives a
+	// reopen - a recovery that positions the next write wrongly or leaves debris behind shows here
+	if probeAfterRecovery {
+		if msg := probeWrites(cfg, in, dir, queries, qok, matchedState, leaf); msg != nil {
+			add(msg[0], msg[1]+"@"+im.class, nil, msg[2:], im)
+			return
+		}
 		return
 	}
 	// recovery is idempotent: close, open once more, same observation
@@ -741,4 +753,75 @@ func powerLossImages(rc *recorded, pt int, leaf *Leaf) []image {
 		}
 	}
 	return out
+}
+
+// probeAfterRecovery is switched on by profiles whose property covers what happens after the
+// recovery (C10, C16); power-loss images keep the cheaper idempotence check.
+var probeAfterRecovery = false
+
+// SetProbeAfterRecovery selects the post-recovery probe for the current leaf.
+func SetProbeAfterRecovery(on bool) { probeAfterRecovery = on }
+
+func filterBad(bad []core.Mismatch, queries []core.Call, qok []bool) []core.Mismatch {
+	var out []core.Mismatch
+	for _, m := range bad {
+		keep := true
+		for qi := range queries {
+			if queries[qi].String() == m.Call.String() && !qok[qi] {
+				keep = false
+			}
+		}
+		if keep {
+			out = append(out, m)
+		}
+	}
+	return out
+}
+
+// probeWrites commits two further transactions on a recovered database and checks that the model
+// (recovered state + probes) holds before and after reopen.  It returns nil or
+// {kind, what, details...}.
+func probeWrites(cfg core.Cfg, in *core.Inst, dir string, queries []core.Call, qok []bool, st *core.State, leaf *Leaf) []string {
+	in.Model = st.Clone()
+	bump(leaf, "post_recovery_probes")
+	big := int(cfg.Seg) - 60
+	if big < 1 {
+		big = 1
+	}
+	// the large record first: when it does not fit behind the recovered write offset the file is
+	// rotated and whatever the crash left at its tail stays behind in a file that is no longer the
+	// newest; then a small one
+	probes := []core.Op{
+		{Kind: "update", Calls: []core.Call{{F: "Put", B: "kv", K: "zzq", Big: big}}},
+		{Kind: "reopen"},
+		{Kind: "update", Calls: []core.Call{{F: "Put", B: "kv", K: "zzp", V: "p1"}}},
+		{Kind: "reopen"},
+	}
+	for pi, op := range probes {
+		r := in.Apply(op)
+		if r.Panic != "" {
+			return []string{"post-recovery-panic", "probe", fmt.Sprintf("probe step %d %s panicked: %s", pi+1, op, r.Panic)}
+		}
+		if r.Err {
+			kind := "post-recovery-write-failed"
+			if op.Kind == "reopen" {
+				kind = "post-recovery-open-error"
+			}
+			return []string{kind, ErrClass(r.Msg), fmt.Sprintf("probe step %d %s failed: %s", pi+1, op, r.Msg)}
+		}
+		obs, err := in.Observe(queries)
+		if err != nil {
+			return []string{"post-recovery-obs-failed", "View", err.Error()}
+		}
+		leaf.Evals += len(obs)
+		if bad := filterBad(core.CheckObs(in.Model, queries, obs), queries, qok); len(bad) > 0 {
+			det := []string{fmt.Sprintf("after probe step %d (%s) on the recovered database:", pi+1, op)}
+			for _, m := range bad {
+				det = append(det, m.String())
+			}
+			return append([]string{"post-recovery-state", bad[0].Atom()}, det...)
+		}
+	}
+	in.CloseOnly()
+	return nil
 }
